@@ -1,5 +1,281 @@
-//! C03 harness — to be written (see /verif/mc/HARNESS_GUIDE.md).
+//! C03 — dense matrix / vector operations obey matrix algebra and shape contracts.
+//!
+//! E1: bounded exhaustive enumeration of (width, operation, shape(s), value fill, parameters) over
+//! the real `DenseMatrix<T>` / `Vec<T>` code, judged by a row-major reference model (`model::M`).
+//! E2: explicit-state search over operation chains on the real object (`chain`).
+//!
+//! The library has no RNG draw on any explored path (`DenseMatrix::rand` is not called), so there
+//! is nothing to own through the verif-hooks seam; `cleanup` releases it anyway.
+
+mod binary;
+mod chain;
+mod model;
+mod special;
+mod unary;
+mod vector;
+
+use mc_core::{self as mc, json, ExtraResult, Harness, Job, Plan, Tier};
+use model::FillSet;
+
+struct C03;
+
+/// Shapes of the lattice, simplest (fewest entries) first.
+fn lattice(max: usize) -> Vec<(usize, usize)> {
+    let mut v: Vec<(usize, usize)> = (1..=max).flat_map(|r| (1..=max).map(move |c| (r, c))).collect();
+    v.sort_by_key(|(r, c)| (r * c, *r));
+    v
+}
+
+const QUICK_BIG: [(usize, usize); 7] = [(1, 12), (12, 1), (2, 9), (9, 2), (5, 7), (7, 5), (12, 12)];
+const PAIR_EXTRA: [(usize, usize); 12] = [(1, 6), (6, 1), (2, 6), (6, 2), (1, 8), (8, 1), (2, 8), (8, 2), (1, 16), (16, 1), (1, 12), (12, 1)];
+const PAIR_EXTRA_T: [(usize, usize); 14] = [(1, 12), (12, 1), (1, 16), (16, 1), (2, 12), (12, 2), (3, 12), (12, 3), (9, 10), (10, 9), (12, 12), (1, 64), (64, 1), (4, 16)];
+
+struct Bounds {
+    lat: usize,
+    sigma_max: usize,
+    big: Vec<(usize, usize)>,
+    pair_lat: usize,
+    pair_extra: Vec<(usize, usize)>,
+    vec_n: usize,
+    vec_big: Vec<usize>,
+    vec_pair: usize,
+    softmax_len: usize,
+    var_n: usize,
+    e2_depth: (usize, usize),
+    e2_signs: Vec<usize>,
+    e2_stack_limit: usize,
+}
+
+fn bounds(tier: Tier) -> Bounds {
+    if tier.is_thorough() {
+        let lat = 8;
+        let big = lattice(12).into_iter().filter(|(r, c)| *r > lat || *c > lat).collect();
+        Bounds {
+            lat,
+            sigma_max: 9,
+            big,
+            pair_lat: 8,
+            pair_extra: PAIR_EXTRA_T.to_vec(),
+            vec_n: 9,
+            vec_big: vec![10, 11, 12, 13, 16, 24],
+            vec_pair: 12,
+            softmax_len: 5,
+            var_n: 10,
+            e2_depth: (5, 4),
+            e2_signs: vec![2, 0],
+            e2_stack_limit: 12,
+        }
+    } else {
+        Bounds {
+            lat: 4,
+            sigma_max: 6,
+            big: QUICK_BIG.to_vec(),
+            pair_lat: 4,
+            pair_extra: PAIR_EXTRA.to_vec(),
+            vec_n: 6,
+            vec_big: vec![12],
+            vec_pair: 6,
+            softmax_len: 4,
+            var_n: 6,
+            e2_depth: (4, 3),
+            e2_signs: vec![2],
+            e2_stack_limit: 12,
+        }
+    }
+}
+
+fn pair_shapes(b: &Bounds) -> Vec<(usize, usize)> {
+    let mut v = lattice(b.pair_lat);
+    for s in &b.pair_extra {
+        if !v.contains(s) {
+            v.push(*s);
+        }
+    }
+    v
+}
+
+const WIDTHS: [&str; 2] = ["f64", "f32"];
+
+impl Harness for C03 {
+    fn id(&self) -> &'static str {
+        "C03"
+    }
+
+    fn plan(&self, tier: Tier, seed: u64) -> Plan {
+        let b = bounds(tier);
+        let mut jobs: Vec<Job> = Vec::new();
+        // vectors first (cheapest), then one-operand matrix groups, pairs, softmax, variance
+        for w in WIDTHS {
+            for n in 1..=b.vec_n {
+                jobs.push(Job::new(format!("vec-{}-n{}", w, n), json!({"kind": "vec", "w": w, "n": n, "fills": "full"})));
+            }
+            for n in &b.vec_big {
+                jobs.push(Job::new(format!("vec-{}-n{}", w, n), json!({"kind": "vec", "w": w, "n": n, "fills": "lite"})));
+            }
+            for n in 1..=b.vec_pair {
+                jobs.push(Job::new(format!("vecpair-{}-n{}", w, n), json!({"kind": "vecpair", "w": w, "n": n})));
+            }
+        }
+        for (r, c) in lattice(b.lat) {
+            for w in WIDTHS {
+                for g in unary::GROUPS {
+                    jobs.push(Job::new(format!("un-{}-{}-{}x{}", g, w, r, c), json!({"kind": "unary", "group": g, "w": w, "r": r, "c": c, "fills": "full"})));
+                }
+            }
+        }
+        for w in WIDTHS {
+            for len in 1..=b.softmax_len {
+                for orient in 0..3 {
+                    if orient == 2 && (len % 2 == 1 || len < 4) {
+                        continue;
+                    }
+                    jobs.push(Job::new(format!("softmax-{}-len{}-o{}", w, len, orient), json!({"kind": "softmax", "w": w, "len": len, "orient": orient})));
+                }
+            }
+            for kind in ["vec", "axis0", "axis1"] {
+                for n in 2..=b.var_n {
+                    jobs.push(Job::new(format!("var-{}-{}-n{}", kind, w, n), json!({"kind": "variance", "vkind": kind, "w": w, "n": n})));
+                }
+            }
+        }
+        for (r, c) in pair_shapes(&b) {
+            for w in WIDTHS {
+                jobs.push(Job::new(format!("pair-{}-{}x{}", w, r, c), json!({"kind": "binary", "w": w, "r": r, "c": c})));
+            }
+        }
+        for (r, c) in &b.big {
+            for w in WIDTHS {
+                for g in unary::GROUPS {
+                    jobs.push(Job::new(format!("un-{}-{}-{}x{}", g, w, r, c), json!({"kind": "unary", "group": g, "w": w, "r": r, "c": c, "fills": "lite"})));
+                }
+            }
+        }
+        let t = tier.is_thorough();
+        // every job carries the tier and the seed, so that a replay file is self-contained
+        for j in jobs.iter_mut() {
+            j.params["t"] = json!(t);
+            j.params["seed"] = json!(seed % 8);
+        }
+        Plan {
+            jobs,
+            budget_s: if t { 2400 } else { 40 },
+            case_deadline_ms: 20_000,
+            floors: vec![
+                ("incompatible_rejected", if t { 100_000 } else { 10_000 }),
+                ("reshape_compatible", 1_000),
+                ("transpose_nonsquare", 500),
+                ("slice_proper", 10_000),
+                ("take_with_repeats", 10_000),
+                ("argmax_tie", 1_000),
+                ("unique_with_duplicates", 1_000),
+                ("reduce_all_negative", 50),
+                ("binary_compatible", 500),
+                ("product_compatible", 1_000),
+                ("product_nonsquare", 1_000),
+                ("stack_compatible", 500),
+                ("dot_vectors", 100),
+                ("dot_row_against_column", 20),
+                ("equality_incompatible", 1_000),
+                ("equal_operands", 50),
+                ("softmax_small_range", 100),
+                ("softmax_negative_dominant", 1_000),
+                ("softmax_positive_dominant", 1_000),
+                ("var_spread_clause_applied", 10_000),
+                ("var_spread_clause_large_offset", 5_000),
+                ("var_lane_large_offset", 5_000),
+                ("e2_state_1x1", 10),
+                ("e2_state_1xN", 100),
+                ("e2_state_Nx1", 100),
+                ("e2_state_nonsquare", 100),
+            ],
+            bounds: json!({
+                "widths": "f64 and f32",
+                "one_operand_lattice": format!("every shape 1<=r,c<={} x 3 operation groups x fills {{4 index-coded sign patterns, 3 all-equal, 10 large-magnitude +-{{400,745,1000,1e6}}, 3 offset fills mu+s*{{-1,0,1}}, every {{0,1,-1}} fill when r*c<={}}} x every slice range, every reshape target (all (r',c')<=r*c+1 when r*c<=16), every take index tuple of length<=3 on both axes, 4 scalars, 6 powers, 3 thresholds, 7 norms, both axes", b.lat, b.sigma_max),
+                "one_operand_structured": format!("{} further shapes up to 12x12 with 6 fills each", b.big.len()),
+                "two_operands": format!("every ordered pair of shapes from the {} shapes (lattice <={}x{} plus same-size partners) x 4 fills of A x 3-4 fills of B (incl. identical stored values under another shape) x 15 operations", pair_shapes(&b).len(), b.pair_lat, b.pair_lat),
+                "vectors": format!("Vec<T> of every length 1..{} (full fills), lengths {:?} (6 fills); every ordered pair of lengths <={}", b.vec_n, b.vec_big, b.vec_pair),
+                "softmax": format!("every tuple of length<={} over {{0,+-1,+-400,+-745,+-1000}} as 1xN, Nx1 and 2x(N/2)", b.softmax_len),
+                "variance": format!("mu + sigma*s for every s in {{0,1,-1}}^n, 2<=n<={}, mu/sigma in {:?} (f64) / {:?} (f32), sigma in {:?}; Vec<T> and both axes of MatrixStats", b.var_n, special::offsets::<f64>(), special::offsets::<f32>(), special::SIGMAS),
+                "e2": format!("operation chains of depth<={} (f64) / {} (f32) from every index-coded shape <=2x3, 18 actions", b.e2_depth.0, b.e2_depth.1),
+                "seed": "VERIF_SEED selects the multiplier/offset applied to the index code and the softmax alphabet (8 variants; 0 = plain)",
+            }),
+        }
+    }
+
+    fn run(&self, job: &Job) {
+        let seed = job.params.get("seed").and_then(|s| s.as_u64()).unwrap_or(0);
+        match job.s("w") {
+            "f64" => run_t::<f64>(job, seed),
+            "f32" => run_t::<f32>(job, seed),
+            w => panic!("unknown width {}", w),
+        }
+    }
+
+    fn cleanup(&self) {
+        mc_sc::release_rng();
+    }
+
+    fn extra(&self, tier: Tier, _seed: u64) -> Vec<ExtraResult> {
+        let b = bounds(tier);
+        let inits: Vec<(usize, usize, usize)> = b.e2_signs.iter().flat_map(|s| [(1, 1), (1, 2), (2, 1), (1, 3), (3, 1), (2, 2), (2, 3), (3, 2)].iter().map(move |(r, c)| (*r, *c, *s))).collect();
+        let cap = if tier.is_thorough() { 6_000_000 } else { 1_500_000 };
+        let m64 = chain::ChainModel::<f64> { inits: inits.clone(), stack_limit: b.e2_stack_limit, _p: std::marker::PhantomData };
+        let m32 = chain::ChainModel::<f32> { inits, stack_limit: b.e2_stack_limit, _p: std::marker::PhantomData };
+        let r64 = mc::bfs::search("dense-matrix-chains-f64", &m64, b.e2_depth.0, cap);
+        let r32 = mc::bfs::search("dense-matrix-chains-f32", &m32, b.e2_depth.1, cap);
+        // determinism of the transition function: a second search must find the same graph
+        let again = mc::bfs::search("dense-matrix-chains-f32", &m32, b.e2_depth.1, cap);
+        assert_eq!((again.states, again.transitions), (r32.states, r32.transitions), "E2 search is not deterministic");
+        vec![r64, r32]
+    }
+
+    fn rule(&self) -> String {
+        "one execution = one (width, operation, operand shape(s), value fill, operation parameters); every execution that reaches a library call is non-trivial; distinct = distinct digest of the values the library returned. E2: one state = one distinct content (shape + stored values) of the real matrix object".into()
+    }
+
+    fn assumptions(&self) -> Vec<String> {
+        vec![
+            "the reference model is a row-major Vec<f64> with the textbook formula of each operation; element-wise results must equal the correctly rounded IEEE result in the width, sums/products/norms are compared within c*n*eps*sum|terms|".into(),
+            "variance/std: population variance; the spread-relative accuracy (1e-6 f64, 1e-2 f32) is demanded only when |mean|/std <= 1e8 (f64) / 4e3 (f32) and the spread is non-zero; otherwise formula-level accuracy 8 n eps (mean^2+var)".into(),
+            "norm(p) is the entry-wise p-norm, softmax normalises over all entries, unique returns the sorted distinct values, argmax accepts any maximiser of a row (ties in the library's favour)".into(),
+            "dot of a 1xN with an Nx1 may be rejected or return the inner product; max_diff is not required to reject incompatible operands (not listed in the statement)".into(),
+            "no RNG draw on any explored path (DenseMatrix::rand is not called); HashMap is not involved".into(),
+        ]
+    }
+
+    fn engine(&self) -> &'static str {
+        "E1 stateless choice-tree exploration of the real code + E2 explicit-state breadth-first search over the real DenseMatrix object"
+    }
+}
+
+fn fills_of(job: &Job, sigma_max: usize) -> FillSet {
+    if job.s("fills") == "lite" {
+        FillSet::Lite
+    } else {
+        FillSet::Full { sigma_max }
+    }
+}
+
+fn run_t<T: model::W>(job: &Job, seed: u64) {
+    // the tier only influences bounds that are part of the job parameters or derivable from them
+    let thorough = job.b("t");
+    let b = bounds(if thorough { Tier::Thorough } else { Tier::Quick });
+    match job.kind() {
+        "unary" => unary::run::<T>(job.s("group"), job.u("r"), job.u("c"), fills_of(job, b.sigma_max), seed),
+        "binary" => binary::run::<T>(job.u("r"), job.u("c"), &pair_shapes(&b), seed),
+        "vec" => vector::run_unary::<T>(job.u("n"), fills_of(job, b.sigma_max), seed),
+        "vecpair" => vector::run_binary::<T>(job.u("n"), b.vec_pair, seed),
+        "softmax" => special::softmax::<T>(job.u("len"), job.u("orient"), seed),
+        "variance" => special::variance::<T>(job.s("vkind"), job.u("n")),
+        "chain" => chain::replay::<T>(job),
+        k => panic!("unknown job kind {}", k),
+    }
+}
+
 fn main() {
-    eprintln!("MACHINERY-ERROR: harness C03 not built yet");
-    std::process::exit(2);
+    if let Err(e) = mc_sc::check_rng_sites() {
+        eprintln!("MACHINERY-ERROR: {}", e);
+        std::process::exit(2);
+    }
+    mc::main(C03)
 }
